@@ -290,8 +290,11 @@ class _FunctionPass:
                 and "overwrite" in t.id):
             return None
         keep, cp = (e.orelse, e.body) if neg else (e.body, e.orelse)
+        # X.copy() or X.astype(<type>) - astype copies unless copy=False
         if isinstance(cp, ast.Call) and isinstance(cp.func, ast.Attribute) \
-                and cp.func.attr == "copy" and not cp.args and \
+                and ((cp.func.attr == "copy" and not cp.args)
+                     or (cp.func.attr == "astype" and not any(
+                         k.arg == "copy" for k in cp.keywords))) and \
                 src(cp.func.value) == src(keep):
             base = self.roots(keep, env)
             return frozenset("ow:" + r if not r.startswith("ow:") else r
